@@ -10,6 +10,7 @@ import PybtexModel.Lemmas.BstLocatedSrc
 import PybtexModel.Lemmas.BstComment
 import PybtexModel.Lemmas.BstEntry
 import PybtexModel.Lemmas.BstLexical
+import PybtexModel.Lemmas.BstOpenGroups
 import PybtexModel.Lemmas.BstEq
 import PybtexModel.Lemmas.BstStream
 
@@ -94,7 +95,10 @@ theorem C15_commands_table : Gen.bstCommands = commandTable := commands_table
 
 /-- Command names are looked up case-insensitively and returned as written: the arity depends on
 the upper-cased name only, and a program whose commands are well-formed up to the letter case of
-their names parses to itself, spelling included. -/
+their names parses to itself, spelling included.  Conjunct 1 is [model wiring] on the SPEC function
+`cmdArity` (defined as a lookup of `upper name`; the model's `cmdArityM` is tied to it by
+`C15_commands_table`); conjunct 2 is a corollary of `C15_roundtrip`, whose `WFProg` already allows
+any letter case.  The claim about the code is carried by `C15_roundtrip` + `C15_commands_table`. -/
 theorem C15_command_case :
     (∀ n n' : Str, upper n = upper n' → cmdArity n = cmdArity n') ∧
     (∀ (p : Program) (L : Layout),
@@ -132,7 +136,11 @@ source in front of lexeme `i`, `eofLine` the last line of the source.
 2. a command has fewer groups than its arity and something other than `{` follows:
    "'{' expected" on the line of that lexeme (this is the repaired behaviour, C15-1);
 3. the text ends while groups of a command are still due: premature end of file, last line;
-4. a group is opened and never closed: premature end of file, last line. -/
+4. a group is opened and never closed (ONE open level holding complete tokens; any depth:
+   `C15_unclosed_groups_located`): premature end of file, last line.
+
+These are offence SHAPES behind a well-formed prefix, not all malformed text; there is no theorem
+"every source that is not a lay-out of a well-formed program is rejected". -/
 theorem C15_malformed_located (p : Program) (hp : WFProg p) (gaps : List Gap)
     (tr : Option CommentText) :
     (∀ (bad : Lex) (more : List Lex), wfLex bad = true → (∀ x ∈ more, wfLex x = true) →
@@ -169,10 +177,71 @@ theorem C15_malformed_located (p : Program) (hp : WFProg p) (gaps : List Gap)
    fun name gs j h1 h2 h3 => located_missing_groups p name gs j gaps tr hp h1 h2 h3,
    fun name gs j ts h1 h2 h3 h4 => located_open_group p name gs j ts gaps tr hp h1 h2 h3 h4⟩
 
-/-- concrete instances of the four cases (kernel evaluation), each with the offence on line 3 of
-a text whose lay-out has comments; the reference reading `read` of the lexeme sequence names the
-same offending lexeme -/
+namespace C15ex
+/-- the instantiations of `C15_malformed_located` used by its `_nonvacuous` companion: a
+well-formed prefix, the offence, and a lay-out (gap before the first lexeme, then the gap after
+each lexeme) with comments and line breaks that puts the offence on line 3 -/
+def rd : Program := [⟨"READ".toList, []⟩]
+def cmt (t : String) (h : (t.toList.all fun c => !isLineSep c) = true := by decide) : GapItem :=
+  .comment ⟨t.toList, h⟩ ⟨'\n', by decide⟩
+/-- `READ % c⏎⏎foo {x}`: an unknown name where a command is due -/
+def more1 : List Lex := [.lb, .word "x".toList, .rb]
+def gaps1 : List Gap := [[], [sp, cmt " c", nlc], [sp]]
+/-- `READ⏎%⏎} sort`: a stray `}` where a command is due -/
+def gaps1b : List Gap := [[], [nlc, cmt ""], [sp]]
+/-- `ENTRY {a}⏎  {b}⏎  READ`: the third group of ENTRY is missing, a name follows -/
+def gs2 : List (List Tok) := [[.name "a".toList], [.name "b".toList]]
+def gaps2 : List Gap := [[], [sp], [], [], [nlc, sp, sp], [], [], [nlc, sp, sp]]
+/-- `MACRO {a}⏎⏎ %x`: the text ends with a group of MACRO still due -/
+def gs3 : List (List Tok) := [[.name "a".toList]]
+def gaps3 : List Gap := [[], [sp], [], [], [nlc, nlc, sp]]
+/-- `FUNCTION {f}⏎{ a { b }⏎ #1 % }`: the second group is opened and never closed -/
+def gs4 : List (List Tok) := [[.name "f".toList]]
+def ts4 : List Tok := [.name "a".toList, .fn [.name "b".toList], .int 1]
+def gaps4 : List Gap := [[], [sp], [], [], [nlc], [sp], [sp], [sp], [sp], [nlc, sp], [sp]]
+end C15ex
+
+/-- `C15_malformed_located` INSTANTIATED, once per case (twice for case 1): for each instance the
+hypotheses hold (`WFProg` of the prefix, `wfLex` / `cmdArity … = none` of the offence, name, arity
+and groups of the unfinished command), the source the theorem speaks about — `render` of prefix +
+offence under the exhibited lay-out, plus the final comment — IS the literal text, and the line
+the theorem names (`lexLine` of the offending lexeme, resp. `eofLine`) is 3; the rejection of the
+literal text is then obtained FROM the theorem (not by evaluating the parser).  The reference
+reading `read` of the lexeme sequence names the same offending lexeme. -/
 theorem C15_malformed_located_nonvacuous :
+    -- the instances: hypotheses, rendered text = literal, line named by the theorem
+    (WFProg C15ex.rd ∧ wfLex (.word "foo".toList) = true ∧ cmdArity "foo".toList = none ∧
+      (∀ x ∈ C15ex.more1, wfLex x = true) ∧
+      render none (Program.lexemes C15ex.rd ++ .word "foo".toList :: C15ex.more1) C15ex.gaps1 ++ trailerText none
+        = "READ % c\n\nfoo {x}".toList ∧
+      lexLine (Program.lexemes C15ex.rd ++ .word "foo".toList :: C15ex.more1) C15ex.gaps1
+        (Program.lexemes C15ex.rd).length = 3) ∧
+    (wfLex .rb = true ∧ (∀ x ∈ [Lex.word "sort".toList], wfLex x = true) ∧
+      render none (Program.lexemes C15ex.rd ++ .rb :: [.word "sort".toList]) C15ex.gaps1b ++ trailerText none
+        = "READ\n%\n} sort".toList ∧
+      lexLine (Program.lexemes C15ex.rd ++ .rb :: [.word "sort".toList]) C15ex.gaps1b
+        (Program.lexemes C15ex.rd).length = 3) ∧
+    (WFProg [] ∧ wfName "ENTRY".toList = true ∧ cmdArity "ENTRY".toList = some (C15ex.gs2.length + (0 + 1)) ∧
+      C15ex.gs2.all wfToks = true ∧ wfLex (.word "READ".toList) = true ∧ Lex.word "READ".toList ≠ .lb ∧
+      render none (Program.lexemes [] ++ .word "ENTRY".toList ::
+          (groupsLexemes C15ex.gs2 ++ .word "READ".toList :: [])) C15ex.gaps2 ++ trailerText none
+        = "ENTRY {a}\n  {b}\n  READ".toList ∧
+      lexLine (Program.lexemes [] ++ .word "ENTRY".toList :: (groupsLexemes C15ex.gs2 ++ .word "READ".toList :: []))
+        C15ex.gaps2 ((Program.lexemes []).length + 1 + (groupsLexemes C15ex.gs2).length) = 3) ∧
+    (wfName "MACRO".toList = true ∧ cmdArity "MACRO".toList = some (C15ex.gs3.length + (0 + 1)) ∧
+      C15ex.gs3.all wfToks = true ∧
+      render none (Program.lexemes [] ++ .word "MACRO".toList :: groupsLexemes C15ex.gs3) C15ex.gaps3
+          ++ trailerText (some ⟨"x".toList, by decide⟩)
+        = "MACRO {a}\n\n %x".toList ∧
+      eofLine "MACRO {a}\n\n %x".toList = 3) ∧
+    (wfName "FUNCTION".toList = true ∧ cmdArity "FUNCTION".toList = some (C15ex.gs4.length + (0 + 1)) ∧
+      C15ex.gs4.all wfToks = true ∧ wfToks C15ex.ts4 = true ∧
+      render none (Program.lexemes [] ++ .word "FUNCTION".toList ::
+          (groupsLexemes C15ex.gs4 ++ .lb :: lexemesList C15ex.ts4)) C15ex.gaps4
+          ++ trailerText (some ⟨" }".toList, by decide⟩)
+        = "FUNCTION {f}\n{ a { b }\n #1 % }".toList ∧
+      eofLine "FUNCTION {f}\n{ a { b }\n #1 % }".toList = 3) ∧
+    -- what the theorem then says about the literal texts
     parseString "READ % c\n\nfoo {x}".toList = .error (.tokenRequired "BST command".toList 3) ∧
     parseString "READ\n%\n} sort".toList = .error (.tokenRequired "BST command".toList 3) ∧
     parseString "ENTRY {a}\n  {b}\n  READ".toList = .error (.tokenRequired "'{'".toList 3) ∧
@@ -183,7 +252,120 @@ theorem C15_malformed_located_nonvacuous :
     (match read [.word "ENTRY".toList, .lb, .word "a".toList, .rb, .lb, .word "b".toList, .rb,
         .word "READ".toList] with
       | .braceExpected 7 => True | _ => False) := by
-  refine ⟨by rfl, by rfl, by rfl, by rfl, by rfl, by exact True.intro, by exact True.intro⟩
+  have hrd : WFProg C15ex.rd := by decide
+  have hnil : WFProg [] := by decide
+  -- case 1
+  have a1 : wfLex (.word "foo".toList) = true := by decide
+  have a2 : cmdArity "foo".toList = none := by decide
+  have a3 : ∀ x ∈ C15ex.more1, wfLex x = true := by decide
+  have t1 : render none (Program.lexemes C15ex.rd ++ .word "foo".toList :: C15ex.more1) C15ex.gaps1 ++ trailerText none
+      = "READ % c\n\nfoo {x}".toList := by decide +kernel
+  have l1 : lexLine (Program.lexemes C15ex.rd ++ .word "foo".toList :: C15ex.more1) C15ex.gaps1
+      (Program.lexemes C15ex.rd).length = 3 := by decide +kernel
+  have r1 := (C15_malformed_located C15ex.rd hrd C15ex.gaps1 none).1 (.word "foo".toList) C15ex.more1 a1 a3
+    (fun s hs => by cases hs; exact a2)
+  rw [t1, l1] at r1
+  -- case 1, a stray closing brace
+  have b1 : wfLex .rb = true := by decide
+  have b3 : ∀ x ∈ [Lex.word "sort".toList], wfLex x = true := by decide
+  have t1b : render none (Program.lexemes C15ex.rd ++ .rb :: [.word "sort".toList]) C15ex.gaps1b ++ trailerText none
+      = "READ\n%\n} sort".toList := by decide +kernel
+  have l1b : lexLine (Program.lexemes C15ex.rd ++ .rb :: [.word "sort".toList]) C15ex.gaps1b
+      (Program.lexemes C15ex.rd).length = 3 := by decide +kernel
+  have r1b := (C15_malformed_located C15ex.rd hrd C15ex.gaps1b none).1 .rb [.word "sort".toList] b1 b3
+    (fun s hs => by cases hs)
+  rw [t1b, l1b] at r1b
+  -- case 2
+  have c1 : wfName "ENTRY".toList = true := by decide
+  have c2 : cmdArity "ENTRY".toList = some (C15ex.gs2.length + (0 + 1)) := by decide
+  have c3 : C15ex.gs2.all wfToks = true := by decide
+  have c4 : wfLex (.word "READ".toList) = true := by decide
+  have c5 : Lex.word "READ".toList ≠ .lb := by decide
+  have t2 : render none (Program.lexemes [] ++ .word "ENTRY".toList ::
+      (groupsLexemes C15ex.gs2 ++ .word "READ".toList :: [])) C15ex.gaps2 ++ trailerText none
+      = "ENTRY {a}\n  {b}\n  READ".toList := by decide +kernel
+  have l2 : lexLine (Program.lexemes [] ++ .word "ENTRY".toList :: (groupsLexemes C15ex.gs2 ++ .word "READ".toList :: []))
+      C15ex.gaps2 ((Program.lexemes []).length + 1 + (groupsLexemes C15ex.gs2).length) = 3 := by decide +kernel
+  have r2 := (C15_malformed_located [] hnil C15ex.gaps2 none).2.1 "ENTRY".toList C15ex.gs2 0 (.word "READ".toList) []
+    c1 c2 c3 c4 c5 (by simp)
+  rw [t2, l2] at r2
+  -- case 3
+  have d1 : wfName "MACRO".toList = true := by decide
+  have d2 : cmdArity "MACRO".toList = some (C15ex.gs3.length + (0 + 1)) := by decide
+  have d3 : C15ex.gs3.all wfToks = true := by decide
+  have t3 : render none (Program.lexemes [] ++ .word "MACRO".toList :: groupsLexemes C15ex.gs3) C15ex.gaps3
+      ++ trailerText (some ⟨"x".toList, by decide⟩) = "MACRO {a}\n\n %x".toList := by decide +kernel
+  have l3 : eofLine "MACRO {a}\n\n %x".toList = 3 := by decide +kernel
+  have r3 := (C15_malformed_located [] hnil C15ex.gaps3 (some ⟨"x".toList, by decide⟩)).2.2.1 "MACRO".toList C15ex.gs3 0 d1 d2 d3
+  rw [t3, l3] at r3
+  -- case 4
+  have e1 : wfName "FUNCTION".toList = true := by decide
+  have e2 : cmdArity "FUNCTION".toList = some (C15ex.gs4.length + (0 + 1)) := by decide
+  have e3 : C15ex.gs4.all wfToks = true := by decide
+  have e4 : wfToks C15ex.ts4 = true := by decide
+  have t4 : render none (Program.lexemes [] ++ .word "FUNCTION".toList ::
+      (groupsLexemes C15ex.gs4 ++ .lb :: lexemesList C15ex.ts4)) C15ex.gaps4
+      ++ trailerText (some ⟨" }".toList, by decide⟩) = "FUNCTION {f}\n{ a { b }\n #1 % }".toList := by decide +kernel
+  have l4 : eofLine "FUNCTION {f}\n{ a { b }\n #1 % }".toList = 3 := by decide +kernel
+  have r4 := (C15_malformed_located [] hnil C15ex.gaps4 (some ⟨" }".toList, by decide⟩)).2.2.2 "FUNCTION".toList C15ex.gs4 0
+    C15ex.ts4 e1 e2 e3 e4
+  rw [t4, l4] at r4
+  exact ⟨⟨hrd, a1, a2, a3, t1, l1⟩, ⟨b1, b3, t1b, l1b⟩, ⟨hnil, c1, c2, c3, c4, c5, t2, l2⟩, ⟨d1, d2, d3, t3, l3⟩,
+    ⟨e1, e2, e3, e4, t4, l4⟩, r1, r1b, r2, r3, r4, True.intro, True.intro⟩
+
+/-- **The text ends while groups are open, at ANY depth** (generalises case 4 of
+`C15_malformed_located`, which has one open level): behind a well-formed program and the complete
+groups `gs` of a command, an argument group is open with complete tokens `ts`, and inside it
+further function literals are open, each with complete tokens (`rest`, outermost first) — what is
+left when a source is cut off anywhere between two tokens, or when several `}` are missing.  Under
+ANY lay-out and final comment: premature end of file, on the last line of the source. -/
+theorem C15_unclosed_groups_located (p : Program) (hp : WFProg p) (gaps : List Gap)
+    (tr : Option CommentText) (name : Str) (gs : List (List Tok)) (j : Nat) (ts : List Tok)
+    (rest : List (List Tok)) (hname : wfName name = true)
+    (har : cmdArity name = some (gs.length + (j + 1))) (hgs : gs.all wfToks = true)
+    (hts : wfToks ts = true) (hrest : rest.all wfToks = true) :
+    parseString (render none
+        (Program.lexemes p ++ .word name :: (groupsLexemes gs ++ openLexemes (ts :: rest))) gaps
+        ++ trailerText tr)
+      = .error (.prematureEOF (eofLine (render none
+          (Program.lexemes p ++ .word name :: (groupsLexemes gs ++ openLexemes (ts :: rest))) gaps
+          ++ trailerText tr))) :=
+  located_open_groups p name gs j ts rest gaps tr hp hname har hgs hts hrest
+
+namespace C15ex
+/-- `READ⏎FUNCTION {f}{ a { b⏎ #1 % }`: two levels left open (the `}` of the text is in a comment) -/
+def ts5 : List Tok := [.name "a".toList]
+def rest5 : List (List Tok) := [[.name "b".toList, .int 1]]
+def gaps5 : List Gap := [[], [nlc], [sp], [], [], [], [sp], [sp], [sp], [nlc, sp], [sp]]
+end C15ex
+
+/-- the theorem instantiated: hypotheses hold, the rendered source is the literal text, its last
+line is 3, and the rejection of the literal text is obtained from the theorem -/
+theorem C15_unclosed_groups_located_nonvacuous :
+    WFProg C15ex.rd ∧ wfName "FUNCTION".toList = true ∧
+    cmdArity "FUNCTION".toList = some (C15ex.gs4.length + (0 + 1)) ∧ C15ex.gs4.all wfToks = true ∧
+    wfToks C15ex.ts5 = true ∧ C15ex.rest5.all wfToks = true ∧
+    render none (Program.lexemes C15ex.rd ++ .word "FUNCTION".toList ::
+        (groupsLexemes C15ex.gs4 ++ openLexemes (C15ex.ts5 :: C15ex.rest5))) C15ex.gaps5
+        ++ trailerText (some ⟨" }".toList, by decide⟩)
+      = "READ\nFUNCTION {f}{ a { b\n #1 % }".toList ∧
+    eofLine "READ\nFUNCTION {f}{ a { b\n #1 % }".toList = 3 ∧
+    parseString "READ\nFUNCTION {f}{ a { b\n #1 % }".toList = .error (.prematureEOF 3) := by
+  have hrd : WFProg C15ex.rd := by decide
+  have e1 : wfName "FUNCTION".toList = true := by decide
+  have e2 : cmdArity "FUNCTION".toList = some (C15ex.gs4.length + (0 + 1)) := by decide
+  have e3 : C15ex.gs4.all wfToks = true := by decide
+  have e4 : wfToks C15ex.ts5 = true := by decide
+  have e5 : C15ex.rest5.all wfToks = true := by decide
+  have t : render none (Program.lexemes C15ex.rd ++ .word "FUNCTION".toList ::
+      (groupsLexemes C15ex.gs4 ++ openLexemes (C15ex.ts5 :: C15ex.rest5))) C15ex.gaps5
+      ++ trailerText (some ⟨" }".toList, by decide⟩)
+      = "READ\nFUNCTION {f}{ a { b\n #1 % }".toList := by decide +kernel
+  have l : eofLine "READ\nFUNCTION {f}{ a { b\n #1 % }".toList = 3 := by decide +kernel
+  have r := C15_unclosed_groups_located C15ex.rd hrd C15ex.gaps5 (some ⟨" }".toList, by decide⟩)
+    "FUNCTION".toList C15ex.gs4 0 C15ex.ts5 C15ex.rest5 e1 e2 e3 e4 e5
+  rw [t, l] at r
+  exact ⟨hrd, e1, e2, e3, e4, e5, t, l, r⟩
 
 /-- Unterminated string literal, at the level of the text handed to the parser: when the scanner,
 inside a group, reaches a `"` after which no further `"` occurs, it reports
